@@ -42,6 +42,8 @@ def instances(draw, fn="vp"):
         "data_kind": draw(st.sampled_from(DATA_KINDS)),
         "log10_data_scale": draw(st.sampled_from([0, 0, 0, -100, -30, -8, 8, 30, 100])),
         "layout": draw(st.sampled_from(LAYOUTS)),
+        # the data vector as measured: double / single precision / integer counts
+        "data_dtype": draw(st.sampled_from(["float64", "float64", "float64", "float32", "int64"])),
     }
     if fn == "nnls" and draw(st.booleans()):
         # half of the NNLS instances are forced into the region where the pinned scipy nnls is reliable
@@ -121,7 +123,13 @@ def build(case):
         y = y * w
     else:
         A = np.ascontiguousarray(A)
-    return A, np.ascontiguousarray(y)
+    y = np.ascontiguousarray(y)
+    dt = case.get("data_dtype", "float64")
+    if dt == "float32" and np.all(np.abs(y) < 1e30) and (np.all(y == 0) or np.abs(y[y != 0]).min() > 1e-30):
+        y = y.astype(np.float32)
+    elif dt == "int64" and 0 < np.abs(y).max() < 1e300:
+        y = np.round(y / np.abs(y).max() * 1000.0).astype(np.int64)
+    return A, y
 
 
 def in_reliable_region(A, y, params=None):
@@ -156,58 +164,79 @@ def prop(case):
     from glotaran.optimization.nnls import residual_nnls
     from glotaran.optimization.variable_projection import residual_variable_projection
 
-    A, y = build(case)
+    A, y_given = build(case)
+    out = _verify(case, A, y_given, "")
+    if A.flags.writeable and y_given.flags.writeable and y_given.dtype == np.float64 and A.shape[0] >= 2:
+        # the same array objects again, refilled in place (a preallocated buffer while scanning a parameter): the answer is for the
+        # content, not for the object
+        A[...] = A[::-1].copy()
+        y_given[...] = np.roll(y_given, 1)
+        try:
+            _verify(case, A, y_given, ":same_arrays_refilled")
+            out["tags"].append("same_arrays_refilled")
+        except Discard:
+            pass
+    return out
+
+
+def _verify(case, A, y_given, sfx):
+    from glotaran.optimization.nnls import residual_nnls
+    from glotaran.optimization.variable_projection import residual_variable_projection
+
+    y = y_given.astype(np.float64)  # the numbers the data hold
     m, n = A.shape
     if not (np.all(np.isfinite(A)) and np.all(np.isfinite(y))):
         raise Discard("non-finite instance")
     if case["data_kind"] == "orthogonal" and m == n:
         raise Discard("orthogonal data of a square system is rounding noise")
+    if y_given.dtype != np.float64 and case["data_kind"] in ("in_span", "orthogonal", "nonneg_mix"):
+        raise Discard("rounded data are no longer in the span / orthogonal to it")
     sv = np.linalg.svd(A, compute_uv=False)
     if sv[-1] == 0 or sv[0] / sv[-1] > 1e10:
         raise Discard("cond>1e10")
     cond = sv[0] / sv[-1]
     normA = sv[0]
-    A0, y0 = A.copy(), y.copy()
-    tags = [f"cond1e{int(np.log10(cond))}", case["family"], case["data_kind"], case["fn"]]
+    A0, y0 = A.copy(), y_given.copy()
+    tags = [f"cond1e{int(np.log10(cond))}", case["family"], case["data_kind"], case["fn"]] + ([f"data_{y_given.dtype}"] if y_given.dtype != np.float64 else [])
     if case["fn"] == "vp":
-        with expect_ok("vp.call"):
-            clp, r = residual_variable_projection(A, y)
+        with expect_ok("vp.call" + sfx):
+            clp, r = residual_variable_projection(A, y_given)
         clp, r = np.asarray(clp), np.asarray(r)
-        check(np.array_equal(A, A0) and np.array_equal(y, y0), "vp.inputs_unchanged")
-        check(clp.shape == (n,) and r.shape == (m,), "vp.shape", f"{clp.shape} {r.shape}")
-        check(np.all(np.isfinite(clp)) and np.all(np.isfinite(r)), "vp.finite")
+        check(np.array_equal(A, A0) and np.array_equal(y_given, y0) and y_given.dtype == y0.dtype, "vp.inputs_unchanged")
+        check(clp.shape == (n,) and r.shape == (m,), "vp.shape" + sfx, f"{clp.shape} {r.shape}")
+        check(np.all(np.isfinite(clp)) and np.all(np.isfinite(r)), "vp.finite" + sfx)
         beta = EPS * (normA * np.linalg.norm(clp) + np.linalg.norm(y))
         g = np.linalg.norm(A.T @ r)
-        check(g <= 1e3 * normA * beta, "vp.orthogonal", lambda: f"|A^T r|={g:.3e} bound={1e3*normA*beta:.3e} cond={cond:.2e}")
+        check(g <= 1e3 * normA * beta, "vp.orthogonal" + sfx, lambda: f"|A^T r|={g:.3e} bound={1e3*normA*beta:.3e} cond={cond:.2e}")
         d = np.linalg.norm(r - (y - A @ clp))
-        check(d <= 1e3 * beta, "vp.residual_identity", lambda: f"|r-(y-A clp)|={d:.3e} bound={1e3*beta:.3e} cond={cond:.2e}")
+        check(d <= 1e3 * beta, "vp.residual_identity" + sfx, lambda: f"|r-(y-A clp)|={d:.3e} bound={1e3*beta:.3e} cond={cond:.2e}")
         xr_, *_ = np.linalg.lstsq(A, y, rcond=None)
         rr = np.linalg.norm(y - A @ xr_)
-        check(np.linalg.norm(r) <= rr + 1e3 * beta, "vp.minimal", lambda: f"|r|={np.linalg.norm(r):.6e} ref={rr:.6e}")
+        check(np.linalg.norm(r) <= rr + 1e3 * beta, "vp.minimal" + sfx, lambda: f"|r|={np.linalg.norm(r):.6e} ref={rr:.6e}")
         return {"nontrivial": cond >= 1e3, "tags": tags}
     # NNLS
-    with expect_ok("nnls.call"):
-        clp, r = residual_nnls(A, y)
+    with expect_ok("nnls.call" + sfx):
+        clp, r = residual_nnls(A, y_given)
     clp, r = np.asarray(clp), np.asarray(r)
-    check(np.array_equal(A, A0) and np.array_equal(y, y0), "nnls.inputs_unchanged")
-    check(clp.shape == (n,) and r.shape == (m,), "nnls.shape")
-    check(np.all(clp >= 0), "nnls.nonneg", lambda: f"min clp {clp.min()}")
+    check(np.array_equal(A, A0) and np.array_equal(y_given, y0), "nnls.inputs_unchanged")
+    check(clp.shape == (n,) and r.shape == (m,), "nnls.shape" + sfx)
+    check(np.all(clp >= 0), "nnls.nonneg" + sfx, lambda: f"min clp {clp.min()}")
     beta = EPS * (normA * np.linalg.norm(clp) + np.linalg.norm(y))
     d = np.linalg.norm(r - (y - A @ clp))
-    check(d <= 10 * beta + 1e-300, "nnls.residual_identity", lambda: f"{d:.3e} > {10*beta:.3e}")
-    check(np.linalg.norm(r) <= np.linalg.norm(y) * (1 + 1e-12), "nnls.not_worse_than_zero", lambda: f"|r|={np.linalg.norm(r):.6e} |y|={np.linalg.norm(y):.6e}")
+    check(d <= 10 * beta + 1e-300, "nnls.residual_identity" + sfx, lambda: f"{d:.3e} > {10*beta:.3e}")
+    check(np.linalg.norm(r) <= np.linalg.norm(y) * (1 + 1e-12), "nnls.not_worse_than_zero" + sfx, lambda: f"|r|={np.linalg.norm(r):.6e} |y|={np.linalg.norm(y):.6e}")
     w = A.T @ r
     tau = 1e4 * normA * beta
     # witness oracle (sound: a feasible point with smaller residual proves non-optimality)
     res_w, x_w = exact_nnls(A, y)
     gap = np.linalg.norm(r) - res_w
-    check(gap <= 1e4 * beta, "nnls.optimal_witness", lambda: f"|r|={np.linalg.norm(r):.9e} witness={res_w:.9e} gap={gap:.3e} bound={1e4*beta:.3e} cond={cond:.2e} scale=1e{case['log10_data_scale']}")
+    check(gap <= 1e4 * beta, "nnls.optimal_witness" + sfx, lambda: f"|r|={np.linalg.norm(r):.9e} witness={res_w:.9e} gap={gap:.3e} bound={1e4*beta:.3e} cond={cond:.2e} scale=1e{case['log10_data_scale']}")
     # KKT (dual feasibility on the gradient scale of the residual)
     kkt_tol = tau
-    check(w.max() <= kkt_tol + 1e-300, "nnls.kkt_dual", lambda: f"max A^T r = {w.max():.3e} > {kkt_tol:.3e} cond={cond:.2e}")
+    check(w.max() <= kkt_tol + 1e-300, "nnls.kkt_dual" + sfx, lambda: f"max A^T r = {w.max():.3e} > {kkt_tol:.3e} cond={cond:.2e}")
     supp = clp > 0
     if supp.any():
-        check(np.abs(w[supp]).max() <= kkt_tol + 1e-300, "nnls.kkt_stationary", lambda: f"{np.abs(w[supp]).max():.3e} > {kkt_tol:.3e} cond={cond:.2e}")
+        check(np.abs(w[supp]).max() <= kkt_tol + 1e-300, "nnls.kkt_stationary" + sfx, lambda: f"{np.abs(w[supp]).max():.3e} > {kkt_tol:.3e} cond={cond:.2e}")
     ns = int((x_w > 0).sum())
     interesting = 0 < ns < n
     tags.append("active_set_partial" if interesting else "active_set_trivial")
@@ -244,7 +273,13 @@ def prop_dispatch(case):
         "megacomplex": {"m": {"type": "verif-table", "labels": [f"s{j}" for j in range(n)], "rates": [f"r.{j+1}" for j in range(n)], "shape": "exp"}},
         "dataset": {"d": {"megacomplex": ["m"]}},
     }
-    model, params = testmc.make_model(spec, {"r": rates})
+    # a dataset scale (the linear problem is data ~ scale * matrix * clp), on the unlinked path the existing tests never scale
+    scale = [1.0, 2.5, 0.4][case["seed"] % 3]
+    pdict = {"r": rates}
+    if scale != 1.0:
+        spec["dataset"]["d"]["scale"] = "sc.1"
+        pdict["sc"] = [[scale, {"vary": False}]]
+    model, params = testmc.make_model(spec, pdict)
     # several global indices with a weight that differs from index to index: each index is its own linear problem
     ng = 1 + case["seed"] % 3
     gax = [1.0, 2.5, 4.0][:ng]
@@ -256,7 +291,7 @@ def prop_dispatch(case):
     scheme = Scheme(model, params, {"d": ds}, maximum_number_function_evaluations=1)
     with expect_ok("dispatch.optimize"):
         res = optimize(scheme, verbose=False, raise_exception=True)
-    A = np.exp(-np.outer(t, rates))
+    A = scale * np.exp(-np.outer(t, rates))
     fn = residual_variable_projection if case["residual_function"] == "variable_projection" else residual_nnls
     differs = False
     for gi, g in enumerate(gax):
